@@ -27,6 +27,15 @@ type metaCase struct {
 	GK      string `json:"gk"`
 	Added   string `json:"added"`
 	Got     string `json:"got"`
+	GK2     string `json:"gk2"`
+	Got2    string `json:"got2"`
+}
+
+// oneHotKey: a legitimate 32-byte key whose only non-zero byte is at position pos.
+func oneHotKey(pos int) []byte {
+	k := make([]byte, 32)
+	k[pos%32] = byte(1 + pos%7)
+	return k
 }
 
 func keyOfClass(c string, rng *rand.Rand) []byte {
@@ -101,16 +110,47 @@ func init() {
 			}
 			return keyOfClass(c, rng)
 		}
-		for _, raw := range cases {
+		type job struct {
+			raw json.RawMessage
+			c   metaCase
+			pos int
+		}
+		var jobs []job
+		for i, raw := range cases {
 			var c metaCase
 			if err := json.Unmarshal(raw, &c); err != nil {
 				return err
 			}
+			if c.AK == "onehot" && c.Tamper == "none" && (c.GK == "onehot" || c.GK == "good1") && c.GK2 == "none" && (c.Carrier == "meta" || c.P == "short") {
+				// the key class is refined to every position of the non-zero byte
+				for pos := 0; pos < 32; pos++ {
+					jobs = append(jobs, job{raw, c, pos})
+				}
+			} else {
+				jobs = append(jobs, job{raw, c, []int{0, 7, 24, 31, 16, 25}[i%6]})
+			}
+		}
+		for _, jb := range jobs {
+			raw, c := jb.raw, jb.c
+			onehot := oneHotKey(jb.pos)
+			keyOf := func(cl string) []byte {
+				if cl == "onehot" {
+					return onehot
+				}
+				return keyFor(cl)
+			}
 			rep.Evaluations++
 			pt := plaintextOfClass(c.P, rng)
-			ak, gk := keyFor(c.AK), keyFor(c.GK)
+			ak, gk := keyOf(c.AK), keyOf(c.GK)
 			if c.GK == c.AK {
 				gk = ak
+			}
+			var gk2 []byte
+			if c.GK2 != "none" && c.GK2 != "" {
+				gk2 = keyOf(c.GK2)
+				if c.GK2 == c.AK {
+					gk2 = ak
+				}
 			}
 			// ---- add (twice, under two names) ----
 			var m *meta.Meta
@@ -143,6 +183,17 @@ func init() {
 						addErr = m.AddEncrypted("s2", v, ak)
 					}
 					getBytes, getS, getB = m.GetBytes, m.GetEncryptedString, m.GetEncryptedBytes
+				case "metaro":
+					m = meta.NewMeta()
+					var v any = pt
+					if c.API == "string" {
+						v = string(pt)
+					}
+					if addErr = m.AddEncrypted("s1", v, ak); addErr == nil {
+						addErr = m.AddEncrypted("s2", v, ak)
+					}
+					ro := m.ReadOnly() // ONE view object for every read of this case
+					getBytes, getS, getB = ro.GetBytes, ro.GetEncryptedString, ro.GetEncryptedBytes
 				case "dlg":
 					o1, o2 := delegation.WithEncryptedMetaBytes("s1", pt, ak), delegation.WithEncryptedMetaBytes("s2", pt, ak)
 					if c.API == "string" {
@@ -191,7 +242,7 @@ func init() {
 					getBytes, getS, getB = mm.GetBytes, mm.GetEncryptedString, mm.GetEncryptedBytes
 				}
 			}()
-			goodAdd := c.AK == "good1" || c.AK == "good2"
+			goodAdd := c.AK == "good1" || c.AK == "good2" || c.AK == "onehot"
 			if goodAdd {
 				rep.nontrivial(string(raw))
 			}
@@ -262,7 +313,40 @@ func init() {
 					got, gerr = gB("s1", gk)
 				}
 			}()
-			goodGet := c.GK == "good1" || c.GK == "good2"
+			goodGet := c.GK == "good1" || c.GK == "good2" || c.GK == "onehot"
+			if c.GK2 != "none" && c.GK2 != "" {
+				// a second read through the SAME view object
+				var got2 []byte
+				var gerr2 error
+				func() {
+					defer func() {
+						if r := recover(); r != nil {
+							gerr2 = fmt.Errorf("panic: %v", r)
+						}
+					}()
+					if c.API == "string" {
+						var s string
+						s, gerr2 = gS("s1", gk2)
+						got2 = []byte(s)
+					} else {
+						got2, gerr2 = gB("s1", gk2)
+					}
+				}()
+				goodGet2 := c.GK2 == "good1" || c.GK2 == "good2" || c.GK2 == "onehot"
+				cs := map[string]any{"case": json.RawMessage(raw), "onehot_pos": jb.pos}
+				switch {
+				case gerr2 != nil && len(gerr2.Error()) > 5 && gerr2.Error()[:5] == "panic":
+					rep.violation(cs, "data or an error", gerr2.Error(), "the second read of encrypted metadata panicked")
+				case !goodGet2 && gerr2 == nil:
+					rep.violation(cs, "refused", "data returned", "second read through the same view: a missing, wrongly sized or all-zero key was accepted ("+c.GK2+")")
+				case goodGet2 && c.GK2 == c.AK:
+					if gerr2 != nil || !bytes.Equal(got2, pt) {
+						rep.violation(cs, "the plaintext", fmt.Sprint(gerr2), "second read through the same view with the right key failed")
+					}
+				case goodGet2 && gerr2 == nil:
+					rep.violation(cs, "an error", fmt.Sprintf("%d bytes returned", len(got2)), "second read through the same view: data returned for a wrong key")
+				}
+			}
 			switch {
 			case gerr != nil && len(gerr.Error()) > 5 && gerr.Error()[:5] == "panic":
 				rep.violation(json.RawMessage(raw), "data or an error", gerr.Error(), "reading encrypted metadata panicked")
